@@ -461,3 +461,44 @@ Proof.
   - eapply deepcopy_wf; eauto.
   - rewrite Ht. apply spec_copy_iso.
 Qed.
+
+(* ---------- the boolean check of the parsed tree (evaluated in the correspondence) is sound ---------- *)
+Lemma mem_path_In p l : mem_path p l = true <-> In p l.
+Proof.
+  unfold mem_path. rewrite existsb_exists. split.
+  - intros (q & Hq & E). destruct (path_dec p q) as [->|]; [exact Hq|discriminate].
+  - intros H. exists p. split; auto. destruct (path_dec p p) as [_|N]; [reflexivity|exfalso; apply N; reflexivity].
+Qed.
+
+Lemma wf_restb_sound ti p : forall rest seen, wf_restb ti p seen rest = true -> wf_rest ti p seen rest.
+Proof.
+  induction rest as [|[r i] rest IH]; intros seen H; [exact I|].
+  cbn [wf_restb] in H. apply andb_prop in H. destruct H as (H & H5).
+  apply andb_prop in H. destruct H as (H & H4). apply andb_prop in H. destruct H as (H & H3).
+  apply andb_prop in H. destruct H as (H1 & H2).
+  cbn [wf_rest]. repeat split.
+  - intros ->. discriminate H1.
+  - unfold no_hook in H2. destruct (hk i); [discriminate|reflexivity].
+  - destruct (oaddr_dec (par i) (Some (ti, p ++ removelast r))) as [E|]; [exact E|discriminate].
+  - apply mem_path_In. exact H4.
+  - apply IH. exact H5.
+Qed.
+
+Lemma nodupb_sound : forall l, nodupb l = true -> NoDup l.
+Proof.
+  induction l as [|x l IH]; intros H; [constructor|].
+  cbn [nodupb] in H. apply andb_prop in H. destruct H as (H1 & H2). constructor; auto.
+  intros Hin. apply mem_path_In in Hin. rewrite Hin in H1. discriminate H1.
+Qed.
+
+Lemma wf_treeb_sound ti t : wf_treeb ti t = true -> wf_tree ti t.
+Proof.
+  destruct t as [|[[|x q] i0] rest]; cbn [wf_treeb]; try discriminate. intros H.
+  apply andb_prop in H. destruct H as (H & H4). apply andb_prop in H. destruct H as (H & H3).
+  apply andb_prop in H. destruct H as (H1 & H2).
+  exists i0, rest. split; [reflexivity|]. split; [|split; [|split]].
+  - unfold no_hook in H1. destruct (hk i0); [discriminate|reflexivity].
+  - intros pa E. rewrite E in H2. apply Nat.ltb_lt. exact H2.
+  - apply wf_restb_sound. exact H3.
+  - apply nodupb_sound. exact H4.
+Qed.
